@@ -156,18 +156,19 @@ def run_property(mod, tier: str, seed: int, t0: float, only_part=None) -> int:
             if i >= 6:
                 break
             case = fl["case"]
-            if os.environ.get("VZ_NO_SHRINK") != "1" and i < 3:
+            rpart = part if fl["part"] == part.name else _find_part(mod, tier, fl["part"])
+            if os.environ.get("VZ_NO_SHRINK") != "1" and i < 3 and rpart is part:
                 with _quiet_stderr():
                     case = driver.shrink(part, fl, seed, budget)
             detail = fl["detail"]
             try:
                 with _quiet_stderr():
-                    part.check(case, Rec())
+                    rpart.check(case, Rec())
             except Violation as v:
                 detail = v.detail
             except BaseException:  # noqa: BLE001
                 case = fl["case"]
-            p = _write_replay(pid, part.name, case, sig, detail)
+            p = _write_replay(pid, rpart.name, case, sig, detail)
             violations.append((f"{sig}: {detail[:300]}", p))
         if res.harness_errors:
             harness_problems.append(
